@@ -511,6 +511,14 @@ func opReplayDev(variant int) Op {
 				"2_b.sql": "CREATE TABLE new_t (id integer NOT NULL, c integer);\nINSERT INTO new_t (id, c) SELECT id, c FROM t;\nDROP TABLE t;\nALTER TABLE new_t RENAME TO t;\n",
 			}
 		}
+		if variant == 2 {
+			// a directory whose second file fails: the replay is given up half-way (and reported as such,
+			// the same way every time); whoever uses the dev database next finds it as empty as before.
+			files = map[string]string{
+				"1_a.sql": "CREATE TABLE pets (id integer NOT NULL);\n",
+				"2_b.sql": "INSERT INTO no_such_table VALUES (1);\n",
+			}
+		}
 		for n, c := range files {
 			if err := dir.WriteFile(n, []byte(c)); err != nil {
 				return "", err
@@ -587,7 +595,7 @@ func Ops(thorough bool) []Op {
 	for _, d := range dfu.Dialects {
 		ops = append(ops, opPlans(d, thorough), opDiffOrder(d), opMarshal(d), opEvalMarshal(d), opMarshalQualified(d))
 	}
-	ops = append(ops, opFormat(), opChecksum(), opValidateErr(), opScopeErr(), opEvalMultiFile(), opReplayDev(0), opReplayDev(1), opDiffInherit("charset"), opDiffInherit("collate"))
+	ops = append(ops, opFormat(), opChecksum(), opValidateErr(), opScopeErr(), opEvalMultiFile(), opReplayDev(0), opReplayDev(1), opReplayDev(2), opDiffInherit("charset"), opDiffInherit("collate"))
 	sort.SliceStable(ops, func(i, j int) bool { return false })
 	return ops
 }
